@@ -8,7 +8,10 @@
 From Brood Require Export Base World Kinds Tables Sched.
 From Brood Require Export Facts.
 
-Inductive tapi := TWorldMove | TWorldShare | TViewRef | TViewMut.
+(** through run_schedule: the system value itself, or a reference held by its views / resource views / entry views *)
+Inductive twhere := WViews | WRes | WEntry.
+Inductive tapi := TWorldMove | TWorldShare | TViewRef | TViewMut
+                | TTaskSelf (par : bool) | TTaskRef (par : bool) (w : twhere) | TTaskMut (par : bool) (w : twhere).
 (** where the result of a repeated call comes from *)
 Inductive rapi := RWorldEntry | REntriesEntry | RWorldQuery | RViewResources | RGetMut.
 
@@ -34,8 +37,18 @@ Definition contains_views (n : nat) (vs : list view) : bool :=
 Definition disjoint_views (n : nat) (vs es : list view) : bool :=
   forallb (fun c => match merge_table (kind_of c vs) (kind_of c es) with Some _ => true | None => false end) (seq 0 n).
 
+(** the Send bound the [Task] impl (task::System / task::ParSystem) puts on that part of a system *)
+Definition task_bound (par : bool) (w : twhere) : bool :=
+  match par, w with
+  | false, WViews => fact_task_system_views_send | false, WRes => fact_task_system_res_send | false, WEntry => fact_task_system_entry_send
+  | true, WViews => fact_task_parsystem_views_send | true, WRes => fact_task_parsystem_res_send | true, WEntry => fact_task_parsystem_entry_send
+  end.
+
 Definition thread_ok (api : tapi) (send sync : bool) : bool :=
   match api with
+  | TTaskSelf par => if (if par then fact_task_parsystem_self_send else fact_task_system_self_send) then send else true
+  | TTaskRef par w => if task_bound par w then sync else true     (* &T: Send iff T: Sync *)
+  | TTaskMut par w => if task_bound par w then send else true     (* &mut T: Send iff T: Send *)
   | TWorldMove => if fact_world_send_needs_components_send then send else true
   | TWorldShare => if fact_world_sync_needs_components_sync then sync else true
   | TViewRef =>   (* a &C reaches another thread: through result::Iter / Entries / par views *)
@@ -84,8 +97,8 @@ Definition Sound (p : cprog) : Prop :=
   | CInside => True
   | CThread api send sync =>
       match api with
-      | TWorldMove | TViewMut => send = true
-      | TWorldShare | TViewRef => sync = true
+      | TWorldMove | TViewMut | TTaskSelf _ | TTaskMut _ _ => send = true
+      | TWorldShare | TViewRef | TTaskRef _ _ => sync = true
       end
   | COverlap _ m1 m2 => m1 = false /\ m2 = false
   | CSharedTwice | CSequential | CDisjoint => True
